@@ -87,6 +87,7 @@ type Node struct {
 	Names []string `json:"names,omitempty"`
 	Rules []Rule   `json:"rules,omitempty"`
 	Note  string   `json:"note,omitempty"`
+	Ann   string   `json:"ann,omitempty"` // "block" / "spread": this node's annotation is written as a multi-line annotation whatever the layout says
 }
 
 type NamedNode struct {
@@ -396,7 +397,7 @@ func (r *renderer) rulesText(rules []Rule) string {
 func (r *renderer) annotation(n Node) string {
 	note := n.Note
 	if r.l.Note && note == "" && len(n.Rules) > 0 {
-		note = "a note"
+		note = "a *note* x/y **"
 	}
 	body := ""
 	if len(n.Rules) > 0 {
@@ -410,6 +411,9 @@ func (r *renderer) annotation(n Node) string {
 	s := ""
 	if body != "" {
 		ann := r.l.Ann
+		if n.Ann != "" {
+			ann = n.Ann
+		}
 		if hasItemNotes(n.Rules) && ann != "spread" {
 			ann = "block" // comments after list items need an annotation that may span lines
 		}
